@@ -28,7 +28,7 @@ func (e *intersectEngine) Reset()       { e.m = new(verifhooks.IntersectMap) }
 func (e *nestingEngine) Name() string   { return "nesting" }
 func (e *nestingEngine) Reset()         { e.n = new(verifhooks.NestingSets) }
 
-func ints(ws []string) ([]int, bool) {
+func ivlInts(ws []string) ([]int, bool) {
 	out := make([]int, len(ws))
 	for i, w := range ws {
 		v, err := strconv.Atoi(w)
@@ -40,7 +40,7 @@ func ints(ws []string) ([]int, bool) {
 	return out, true
 }
 
-func showVals(vs []int) string {
+func ivlShowVals(vs []int) string {
 	ss := make([]string, len(vs))
 	for i, v := range vs {
 		ss[i] = strconv.Itoa(v)
@@ -55,13 +55,13 @@ func (e *intersectEngine) Exec(op string) string {
 	}
 	switch {
 	case w[0] == "ins" && len(w) == 4:
-		a, ok := ints(w[1:])
+		a, ok := ivlInts(w[1:])
 		if !ok {
 			return "bad-op"
 		}
 		return strconv.FormatBool(e.m.Insert(a[0], a[1], a[2]))
 	case w[0] == "get" && len(w) == 2:
-		a, ok := ints(w[1:])
+		a, ok := ivlInts(w[1:])
 		if !ok {
 			return "bad-op"
 		}
@@ -72,7 +72,7 @@ func (e *intersectEngine) Exec(op string) string {
 			}
 			return "none"
 		}
-		return fmt.Sprintf("%d %d %s", en.Start, en.End, showVals(en.Vals))
+		return fmt.Sprintf("%d %d %s", en.Start, en.End, ivlShowVals(en.Vals))
 	case w[0] == "ents" && len(w) == 1:
 		es := e.m.Entries()
 		if len(es) == 0 {
@@ -80,7 +80,7 @@ func (e *intersectEngine) Exec(op string) string {
 		}
 		ss := make([]string, len(es))
 		for i, en := range es {
-			ss[i] = fmt.Sprintf("%d:%d:%s", en.Start, en.End, showVals(en.Vals))
+			ss[i] = fmt.Sprintf("%d:%d:%s", en.Start, en.End, ivlShowVals(en.Vals))
 		}
 		return strings.Join(ss, ";")
 	case w[0] == "dump" && len(w) == 1:
@@ -104,7 +104,7 @@ func (e *nestingEngine) Exec(op string) string {
 	}
 	switch {
 	case w[0] == "ins" && len(w) == 4:
-		a, ok := ints(w[1:])
+		a, ok := ivlInts(w[1:])
 		if !ok {
 			return "bad-op"
 		}
@@ -174,22 +174,22 @@ func (e *nestingEngine) Class(op, ans string) string {
 	return w[0]
 }
 
-type ivl struct{ a, b int }
+type ivlT struct{ a, b int }
 
 // allIntervals lists every [a,b] with lo <= a <= b <= hi.
-func allIntervals(lo, hi int) []ivl {
-	var out []ivl
+func ivlAll(lo, hi int) []ivlT {
+	var out []ivlT
 	for a := lo; a <= hi; a++ {
 		for b := a; b <= hi; b++ {
-			out = append(out, ivl{a, b})
+			out = append(out, ivlT{a, b})
 		}
 	}
 	return out
 }
 
 // eachSeq calls f with every sequence over ivs of length exactly n.
-func eachSeq(ivs []ivl, n int, f func([]ivl)) {
-	seq := make([]ivl, n)
+func ivlEachSeq(ivs []ivlT, n int, f func([]ivlT)) {
+	seq := make([]ivlT, n)
 	var rec func(i int)
 	rec = func(i int) {
 		if i == n {
@@ -204,7 +204,7 @@ func eachSeq(ivs []ivl, n int, f func([]ivl)) {
 	rec(0)
 }
 
-func intersectQueries(lo, hi int) []string {
+func ivlQueries(lo, hi int) []string {
 	var ops []string
 	for p := lo - 1; p <= hi+1; p++ {
 		ops = append(ops, "get "+strconv.Itoa(p))
@@ -223,10 +223,10 @@ func (e *intersectEngine) Gen(r *Rand, tier string) [][]string {
 		if thorough {
 			L = d.thoroughL
 		}
-		ivs := allIntervals(0, d.hi)
-		q := intersectQueries(0, d.hi)
+		ivs := ivlAll(0, d.hi)
+		q := ivlQueries(0, d.hi)
 		for n := 1; n <= L; n++ {
-			eachSeq(ivs, n, func(seq []ivl) {
+			ivlEachSeq(ivs, n, func(seq []ivlT) {
 				c := make([]string, 0, n+len(q))
 				for i, iv := range seq {
 					c = append(c, fmt.Sprintf("ins %d %d %d", iv.a, iv.b, i+1))
@@ -237,8 +237,8 @@ func (e *intersectEngine) Gen(r *Rand, tier string) [][]string {
 	}
 	// 2. hand-written shapes: the panic, negative coordinates, adjacency, deep stacks.
 	cases = append(cases,
-		append([]string{"ins 3 1 1", "ins 0 0 2", "ins 2 2 3", "ins 5 -5 4"}, intersectQueries(-1, 4)...),
-		append([]string{"ins -4 -2 1", "ins -1 3 2", "ins -6 6 3", "ins -2 -1 4"}, intersectQueries(-7, 7)...),
+		append([]string{"ins 3 1 1", "ins 0 0 2", "ins 2 2 3", "ins 5 -5 4"}, ivlQueries(-1, 4)...),
+		append([]string{"ins -4 -2 1", "ins -1 3 2", "ins -6 6 3", "ins -2 -1 4"}, ivlQueries(-7, 7)...),
 	)
 	for depth := 1; depth <= 20; depth++ {
 		// depth identical intervals, then a split on the right, then an insert on the left part
@@ -247,7 +247,7 @@ func (e *intersectEngine) Gen(r *Rand, tier string) [][]string {
 			c = append(c, fmt.Sprintf("ins 0 9 %d", i+1))
 		}
 		c = append(c, fmt.Sprintf("ins 5 9 %d", depth+1), "dump", fmt.Sprintf("ins 0 4 %d", depth+2))
-		cases = append(cases, append(c, intersectQueries(0, 9)...))
+		cases = append(cases, append(c, ivlQueries(0, 9)...))
 	}
 	// 3. random long sequences (needed to reach spare-capacity states), queried as they grow.
 	cnt, maxLen := 150, 120
@@ -263,7 +263,7 @@ func (e *intersectEngine) Gen(r *Rand, tier string) [][]string {
 		}
 		style := r.Intn(4)
 		var c []string
-		q := intersectQueries(off, off+width)
+		q := ivlQueries(off, off+width)
 		every := 5 + r.Intn(20)
 		for j := 0; j < n; j++ {
 			a := off + r.Intn(width+1)
@@ -304,8 +304,8 @@ func (e *nestingEngine) Gen(r *Rand, tier string) [][]string {
 		if thorough {
 			L = d.thoroughL
 		}
-		ivs := allIntervals(0, d.hi)
-		eachSeq(ivs, L, func(seq []ivl) {
+		ivs := ivlAll(0, d.hi)
+		ivlEachSeq(ivs, L, func(seq []ivlT) {
 			c := make([]string, 0, 2*L)
 			for i, iv := range seq {
 				c = append(c, fmt.Sprintf("ins %d %d %d", iv.a, iv.b, i+1), "sets")
@@ -325,7 +325,7 @@ func (e *nestingEngine) Gen(r *Rand, tier string) [][]string {
 		width := 3 + r.Intn(30)
 		off := r.Intn(9) - 4
 		n := 3 + r.Intn(30)
-		ivs := make([]ivl, n)
+		ivs := make([]ivlT, n)
 		for j := range ivs {
 			a := off + r.Intn(width+1)
 			b := off + r.Intn(width+1)
@@ -335,7 +335,7 @@ func (e *nestingEngine) Gen(r *Rand, tier string) [][]string {
 			if r.Chance(1, 3) {
 				b = a + r.Intn(3)
 			}
-			ivs[j] = ivl{a, b}
+			ivs[j] = ivlT{a, b}
 		}
 		switch r.Intn(3) {
 		case 0: // the renderer's first use: longest first
